@@ -22,7 +22,7 @@ from contracts.w5_native import patched
 KEY = ('RES', 'uid-1')
 MAX_EVENTS = 3
 PROCESSING_TAKES = 3
-# every event type the worker may see (None: an item of a (re-)listing) x {a foreign version, the version of the own patch}
+# every event type the worker may see (None: an item of a (re-)listing), with a foreign version or the version of the own patch
 CONTENTS = [('ADDED', 'v1'), ('MODIFIED', 'v9'), (None, 'v1'), (None, 'v9'), ('DELETED', 'v1')]
 
 
@@ -48,9 +48,12 @@ class _Livelock(BaseException):
                   'the processor: any coroutine function with the WatchStreamProcessor signature (here: records; takes 3 s; returns None / the '
                   'patched version "v9" / raises)'],
          assumes=['settings.queueing.idle_timeout in {0, 5}, settings.persistence.consistency_timeout in {0, 10}; 1..2 events queued at spawn, '
-                  'optionally followed by the end-of-stream marker; at most 3 events per run; at every suspension point of the worker the watcher '
-                  'puts 0..1 events (type None/ADDED/MODIFIED/DELETED, resourceVersion v1 or the patched v9); the worker is cancelled at most '
-                  'once, while it waits on an empty backlog'])
+                  'optionally followed by the end-of-stream marker (then nothing more is put); at most 3 events per run; at every suspension point '
+                  'of the worker the watcher puts 0..1 events; the content of an event -- (ADDED, v1) (MODIFIED, v9) (None, v1) (None, v9) (DELETED, v1), '
+                  'v9 being the version of the own patch -- is drawn when the worker takes it from the backlog, every one of the five while an own '
+                  'patch is awaited, in rotation otherwise (the worker looks at the content of an event only to compare it with the awaited version); '
+                  'the worker is cancelled at most once, while it waits on an empty backlog; processing takes 3 s, an event arrives 1 s after the '
+                  'wait began, the time-out fires exactly when due (the earliest the contract allows)'])
 def Q1n(vc):
     """
     queueing.worker(signaller, settings, processor, streams, key, ...) run natively from its spawn to its end:
@@ -69,8 +72,9 @@ def Q1n(vc):
                                  reported the patch + consistency_timeout; the expectation is armed only by a processor call that
                                  returned a version (consistency_timeout > 0), dropped only by an event carrying exactly that version
                                  -- not by a call that patched nothing, not by a listing event (type None) of another version;
-      no_retire_while_expecting  the worker does not retire by the idle time-out before the consistency deadline of a pending
-                                 expectation (with the worker the expectation would be forgotten);
+      no_retire_while_expecting  unless the stream has ended (EOS), the worker does not retire -- by the idle time-out or otherwise --
+                                 before the consistency deadline of a pending expectation (with the worker the expectation would be
+                                 forgotten: the next event would be handled on a view older than the own patch);
       processor_error_escalates  the worker ends with an exception iff the processor raised (then with THAT exception) or it was
                                  cancelled (then with CancelledError);
       pressure_tells_pending_events  the pressure event the processor sees is the stream's, and it is set iff more events are pending.
@@ -80,7 +84,7 @@ def Q1n(vc):
     settings = types.SimpleNamespace(queueing=types.SimpleNamespace(idle_timeout=idle_timeout),
                                      persistence=types.SimpleNamespace(consistency_timeout=cons_timeout))
     G = types.SimpleNamespace(clock=100, delivered=[], processed=[], running=False, exp_v=None, exp_t=None, waits=0, late=0,
-                              eos=False, cancelled=False, boom=None, log=[], used_after_removal=[], events=[])
+                              eos=False, cancelled=False, boom=None, log=[], used_after_removal=[], events=[], eos_taken=False)
     index_of = {}
 
     def entry_there(what):
@@ -115,7 +119,10 @@ def Q1n(vc):
         def _take(self):
             slot = self._items.pop(0)
             G.log.append('took')
-            return queueing.EOS.token if slot is EOS_SLOT else materialize(slot)
+            if slot is EOS_SLOT:
+                G.eos_taken = True
+                return queueing.EOS.token
+            return materialize(slot)
 
         def empty(self):
             entry_there('empty?')
@@ -331,10 +338,10 @@ def Q1n(vc):
     want = list(range(len(G.delivered)))
     vc.ensure('lossless', sorted(G.processed) == want and not [x for x in stream.backlog._items if x is not EOS_SLOT])
     vc.ensure('ordered_serial', G.processed == sorted(G.processed))
-    retired_idle = bool(G.log) and [x for x in G.log if x in ('timeout', 'took', 'processor')][-1:] == ['timeout']
+    retired_idle = [x for x in G.log if x in ('timeout', 'took', 'processor')][-1:] == ['timeout']
     vc.canary('canary.never_idle_exit', not retired_idle)
-    if retired_idle:
+    if not G.eos_taken:
+        # the worker retired on its own (by the idle time-out, or however a restructured worker decides to): not while an own patch
+        # is awaited and its deadline is ahead
         vc.ensure('no_retire_while_expecting', G.exp_t is None or G.clock >= G.exp_t)
-    else:
-        vc.ensure('no_retire_while_expecting', G.eos)       # no other regular way out than the end of the stream
-    return ('ended', 'idle' if retired_idle else 'eos', tuple(G.processed), G.late)
+    return ('ended', 'eos' if G.eos_taken else 'idle' if retired_idle else 'retired', tuple(G.processed), G.late)
